@@ -61,7 +61,8 @@ func readFrameOfType(fType byte, reader *bufio.Reader, isTCP bool) (frame, error
 		data, err = reader.ReadBytes('\r')
 	case 'd':
 		// Peek length
-		peeked, err := reader.Peek(2)
+		var peeked []byte
+		peeked, err = reader.Peek(2) // (err must not be shadowed: it is checked after the switch)
 		if err != nil {
 			return nil, err
 		}
